@@ -5,6 +5,7 @@
 //! the others).
 
 #[derive(Clone, Debug)]
+#[allow(dead_code)] // `kind` shows up in the Debug text of witnesses
 pub struct Field {
     pub off: usize,
     pub width: usize,
@@ -14,6 +15,7 @@ pub struct Field {
 }
 
 #[derive(Clone, Debug)]
+#[allow(dead_code)]
 pub struct Region {
     pub start: usize,
     pub end: usize,
